@@ -126,6 +126,24 @@ bool prop(Tape &t, Report &R) {
     if (!out.error.empty())
       return R.fail("on a circuit object placed before with its fixed cells elsewhere, then set to these contents with " + route + ": " + out.error + " " + s2.json());
   }
+  // the same circuit far from the origin (a die of a few centimetres in nanometres): coordinates
+  // beyond 2^24, where single precision no longer represents every integer
+  if (hw % 8 == 2) {
+    CircuitSpec far = s;
+    int dx = ((hw >> 4) & 1) ? (1 << 25) + (int)((hw >> 8) % 1000) : 0;
+    int dy = ((hw >> 5) & 1) || dx == 0 ? (1 << 25) + (int)((hw >> 18) % 1000) : 0;
+    for (auto &r : far.rows) r.minX += dx, r.maxX += dx, r.minY += dy, r.maxY += dy;
+    for (auto &c : far.cells) c.x += dx, c.y += dy;
+    R.classify("offset:beyond-2^24");
+    DetailedObserver ob5;
+    ob5.checkWirelength = true;
+    TopLevelOutcome out = runTopLevel(far, params, ob5, excl);
+    if (out.discarded) {
+      if (out.discardWhy.rfind("known:", 0) == 0) R.exclude(out.discardWhy.substr(6));
+      return true;
+    }
+    if (!out.error.empty()) return R.fail(out.error + " [circuit translated by (" + std::to_string(dx) + "," + std::to_string(dy) + ")] " + s.json());
+  }
   return true;
 }
 
